@@ -168,7 +168,9 @@ def _plan_base(tier, seed):
     b = harness.split("RND", 3000 if q else 50000, 250 if q else 2000)
     deep = DEEP if q else DEEP_T
     b += [{"cls": "DEEP", "start": i, "count": 1} for i in range(len(deep))]
-    b = [{"cls": "HUGE", "start": i, "count": 1} for i in range(len(HUGE if q else HUGE_T))] + b       # the long ones first
+    # the long ones first; each with its own short wall-clock watchdog (an unchanged tree needs <= 10 s per graph): a search that is
+    # quadratic or worse in the graph size must not hold up the verdicts of the other classes (its batch is then inconclusive)
+    b = [{"cls": "HUGE", "start": i, "count": 1, "timeout": 150} for i in range(len(HUGE if q else HUGE_T))] + b
     b += [{"cls": "BOARD", "start": i, "count": 1} for i in range(len(BOARDS) if not q else 4)]
     b += harness.split("SOLVE", 400 if q else 6000, 100 if q else 500)
     return b
